@@ -68,26 +68,43 @@ func c11Pem(c *hx.Ctx, dat []byte, class string) {
 	c.Class(class)
 	desc := map[string]any{"kind": "pem", "class": class, "bytes": hx.Hex(dat), "text": string(dat)}
 	pr := pemRes(dat)
+	blkType := "" // type of the first PEM block according to encoding/pem ("" = no block)
+	if blk, _ := pem.Decode(dat); blk != nil {
+		blkType = blk.Type
+	}
+	hasBlk := pr != "None"
 	// ParseKeyPem
 	{
 		var sk crypto.PrivKey
 		var pk crypto.PubKey
 		var err error
-		p, _ := hx.Catch(func() { sk, pk, err = keypem.ParseKeyPem(dat) })
-		var o string
+		var p bool
+		o := guarded(c, "ParseKeyPem", desc, [][]byte{dat}, func() string {
+			p, _ = hx.Catch(func() { sk, pk, err = keypem.ParseKeyPem(dat) })
+			switch {
+			case p:
+				return oPanic
+			case err != nil:
+				return oErr(keyErrClass(err))
+			}
+			return oOk("(" + optKey(sk != nil, rawPriv(sk)) + ", " + optKey(pk != nil, rawPub(pk)) + ")")
+		})
 		switch {
 		case p:
-			o = oPanic
 			c.Failf("parsekeypem-panic", desc, "ParseKeyPem panicked")
 		case err != nil:
-			o = oErr(keyErrClass(err))
 		default:
-			o = oOk("(" + optKey(sk != nil, rawPriv(sk)) + ", " + optKey(pk != nil, rawPub(pk)) + ")")
 			if sk == nil && pk == nil {
 				c.Failf("keypem-no-key-no-error", desc, "ParseKeyPem returned neither a key nor an error")
 			}
 			if sk != nil && (pk == nil || !bytes.Equal(rawPub(sk.GetPublic()), rawPub(pk))) {
 				c.Failf("parsekeypem-public-differs", desc, "ParseKeyPem public key is not the private key's public key")
+			}
+			if hasBlk && blkType != keypem.PrivPemType && blkType != keypem.PubPemType {
+				c.Failf("pem-wrong-type-accepted", desc, "ParseKeyPem accepted a PEM block of type %q", blkType)
+			}
+			if hasBlk && blkType == keypem.PubPemType && sk != nil {
+				c.Failf("pem-wrong-type-accepted", desc, "ParseKeyPem returned a private key from a public key block")
 			}
 		}
 		c.Case(hx.App("KeyPem", hx.Bytes(dat), pr, o), desc)
@@ -96,45 +113,64 @@ func c11Pem(c *hx.Ctx, dat []byte, class string) {
 	{
 		var sk crypto.PrivKey
 		var err error
-		p, _ := hx.Catch(func() { sk, err = keypem.ParsePrivKeyPem(dat) })
+		var p bool
+		o := guarded(c, "ParsePrivKeyPem", desc, [][]byte{dat}, func() string {
+			p, _ = hx.Catch(func() { sk, err = keypem.ParsePrivKeyPem(dat) })
+			return obsOptKey(p, sk != nil, rawPriv(sk), err)
+		})
 		if p {
 			c.Failf("parseprivkeypem-panic", desc, "ParsePrivKeyPem panicked")
 		} else if err == nil && sk == nil {
 			c.Failf("keypem-no-key-no-error", desc, "ParsePrivKeyPem returned neither a key nor an error")
+		} else if err == nil && hasBlk && blkType != keypem.PrivPemType {
+			c.Failf("pem-wrong-type-accepted", desc, "ParsePrivKeyPem accepted a PEM block of type %q", blkType)
 		}
-		c.Case(hx.App("PrivPem", hx.Bytes(dat), pr, obsOptKey(p, sk != nil, rawPriv(sk), err)), desc)
+		c.Case(hx.App("PrivPem", hx.Bytes(dat), pr, o), desc)
 	}
 	// ParsePubKeyPem
 	{
 		var pk crypto.PubKey
 		var err error
-		p, _ := hx.Catch(func() { pk, err = keypem.ParsePubKeyPem(dat) })
+		var p bool
+		o := guarded(c, "ParsePubKeyPem", desc, [][]byte{dat}, func() string {
+			p, _ = hx.Catch(func() { pk, err = keypem.ParsePubKeyPem(dat) })
+			return obsOptKey(p, pk != nil, rawPub(pk), err)
+		})
 		if p {
 			c.Failf("parsepubkeypem-panic", desc, "ParsePubKeyPem panicked")
 		} else if err == nil && pk == nil {
 			c.Failf("keypem-no-key-no-error", desc, "ParsePubKeyPem returned neither a key nor an error")
+		} else if err == nil && hasBlk && blkType != keypem.PrivPemType && blkType != keypem.PubPemType {
+			c.Failf("pem-wrong-type-accepted", desc, "ParsePubKeyPem accepted a PEM block of type %q", blkType)
 		}
-		c.Case(hx.App("PubPem", hx.Bytes(dat), pr, obsOptKey(p, pk != nil, rawPub(pk), err)), desc)
+		c.Case(hx.App("PubPem", hx.Bytes(dat), pr, o), desc)
 	}
 	// confparse PEM variants: nil,nil is the documented answer for an empty field only
 	{
 		var sk crypto.PrivKey
 		var err error
-		p, _ := hx.Catch(func() { sk, err = confparse.ParsePrivateKeyPEM(dat) })
+		var p bool
+		o := guarded(c, "ParsePrivateKeyPEM", desc, [][]byte{dat}, func() string {
+			p, _ = hx.Catch(func() { sk, err = confparse.ParsePrivateKeyPEM(dat) })
+			return obsOptKey(p, sk != nil, rawPriv(sk), err)
+		})
 		if p {
 			c.Failf("confparse-pem-panic", desc, "ParsePrivateKeyPEM panicked")
 		} else if err == nil && sk == nil && len(dat) != 0 {
 			c.Failf("confparse-no-key-no-error", desc, "ParsePrivateKeyPEM returned neither a key nor an error for a non-empty field")
 		}
-		c.Case(hx.App("ConfPrivPem", hx.Bytes(dat), pr, obsOptKey(p, sk != nil, rawPriv(sk), err)), desc)
+		c.Case(hx.App("ConfPrivPem", hx.Bytes(dat), pr, o), desc)
 		var pk crypto.PubKey
-		p, _ = hx.Catch(func() { pk, err = confparse.ParsePublicKeyPEM(dat) })
+		o = guarded(c, "ParsePublicKeyPEM", desc, [][]byte{dat}, func() string {
+			p, _ = hx.Catch(func() { pk, err = confparse.ParsePublicKeyPEM(dat) })
+			return obsOptKey(p, pk != nil, rawPub(pk), err)
+		})
 		if p {
 			c.Failf("confparse-pem-panic", desc, "ParsePublicKeyPEM panicked")
 		} else if err == nil && pk == nil && len(dat) != 0 {
 			c.Failf("confparse-no-key-no-error", desc, "ParsePublicKeyPEM returned neither a key nor an error for a non-empty field")
 		}
-		c.Case(hx.App("ConfPubPem", hx.Bytes(dat), pr, obsOptKey(p, pk != nil, rawPub(pk), err)), desc)
+		c.Case(hx.App("ConfPubPem", hx.Bytes(dat), pr, o), desc)
 	}
 }
 
@@ -147,24 +183,29 @@ func c11Conf(c *hx.Ctx, s string, class string) (crypto.PrivKey, crypto.PubKey) 
 	pr := pemRes([]byte(t))
 	var sk crypto.PrivKey
 	var err error
-	p, _ := hx.Catch(func() { sk, err = confparse.ParsePrivateKey(s) })
+	var p bool
+	o := guarded(c, "ParsePrivateKey", desc, nil, func() string {
+		p, _ = hx.Catch(func() { sk, err = confparse.ParsePrivateKey(s) })
+		return obsOptKey(p, sk != nil, rawPriv(sk), err)
+	})
 	if p {
 		c.Failf("confparse-panic", desc, "ParsePrivateKey panicked")
 	} else if err == nil && sk == nil && t != "" {
 		c.Failf("confparse-no-key-no-error", desc, "ParsePrivateKey returned neither a key nor an error for a non-blank field")
 	}
-	cl := keyErrClass(err)
-	c.Case(hx.App("ConfPriv", hx.Str(s), pr, obsOptKey(p, sk != nil, rawPriv(sk), err)), desc)
+	c.Case(hx.App("ConfPriv", hx.Str(s), pr, o), desc)
 	var pk crypto.PubKey
 	var perr error
-	p, _ = hx.Catch(func() { pk, perr = confparse.ParsePublicKey(s) })
+	o = guarded(c, "ParsePublicKey", desc, nil, func() string {
+		p, _ = hx.Catch(func() { pk, perr = confparse.ParsePublicKey(s) })
+		return obsOptKey(p, pk != nil, rawPub(pk), perr)
+	})
 	if p {
 		c.Failf("confparse-panic", desc, "ParsePublicKey panicked")
 	} else if perr == nil && pk == nil && t != "" {
 		c.Failf("confparse-no-key-no-error", desc, "ParsePublicKey returned neither a key nor an error for a non-blank field")
 	}
-	_ = cl
-	c.Case(hx.App("ConfPub", hx.Str(s), pr, obsOptKey(p, pk != nil, rawPub(pk), perr)), desc)
+	c.Case(hx.App("ConfPub", hx.Str(s), pr, o), desc)
 	return sk, pk
 }
 
@@ -173,8 +214,12 @@ func c11EdPriv(c *hx.Ctx, d []byte, class string) {
 	desc := map[string]any{"kind": "ed25519-priv", "class": class, "bytes": hx.Hex(d)}
 	var sk crypto.PrivKey
 	var err error
-	p, _ := hx.Catch(func() { sk, err = crypto.UnmarshalEd25519PrivateKey(d) })
-	c.Case(hx.App("UnmarshalEdPriv", hx.Bytes(d), obsBytes(p, rawPriv(sk), err, 0)), desc)
+	var p bool
+	o := guarded(c, "UnmarshalEd25519PrivateKey", desc, [][]byte{d}, func() string {
+		p, _ = hx.Catch(func() { sk, err = crypto.UnmarshalEd25519PrivateKey(d) })
+		return obsBytes(p, rawPriv(sk), err, 0)
+	})
+	c.Case(hx.App("UnmarshalEdPriv", hx.Bytes(d), o), desc)
 	if p {
 		c.Failf("unmarshaled25519-panic", desc, "UnmarshalEd25519PrivateKey panicked")
 		return
@@ -403,8 +448,12 @@ func c11(c *hx.Ctx) {
 			desc := map[string]any{"kind": "unmarshal-priv", "class": pc, "bytes": hx.Hex(pb)}
 			var sk crypto.PrivKey
 			var err error
-			p, _ := hx.Catch(func() { sk, err = crypto.UnmarshalPrivateKey(pb) })
-			c.Case(hx.App("UnmarshalPriv", hx.Bytes(pb), obsBytes(p, rawPriv(sk), err, keyErrClass(err))), desc)
+			var p bool
+			o := guarded(c, "UnmarshalPrivateKey", desc, [][]byte{pb}, func() string {
+				p, _ = hx.Catch(func() { sk, err = crypto.UnmarshalPrivateKey(pb) })
+				return obsBytes(p, rawPriv(sk), err, keyErrClass(err))
+			})
+			c.Case(hx.App("UnmarshalPriv", hx.Bytes(pb), o), desc)
 			if p {
 				c.Failf("unmarshalprivatekey-panic", desc, "UnmarshalPrivateKey panicked")
 			} else if err == nil && sk == nil {
@@ -416,7 +465,11 @@ func c11(c *hx.Ctx) {
 		case 4: // PEM irregularities
 			var dat []byte
 			var class string
-			switch c.Rng.Intn(10) {
+			kk := c.Rng.Intn(14)
+			if kk >= 10 {
+				kk = []int{0, 8, 0, 2}[kk-10]
+			}
+			switch kk {
 			case 0:
 				dat, class = pem.EncodeToMemory(&pem.Block{Type: "RSA PRIVATE KEY", Bytes: k.marshalled}), "pem-wrong-type"
 			case 1:
